@@ -459,6 +459,8 @@ STARTS = {
 def c07(ctx):
     for name, (pol, prelude) in STARTS.items():
         c = dict(pol, Prelude=prelude, MaxSend=0, MaxFlight=4, MaxQuery=0 if ctx.quick() else 1)
+        if not ctx.quick() and name in ("tag", "req", "reqboth"):
+            c["MaxSend"] = 1   # the user keeps typing while the exchange is in flight
         ctx.model("c07-" + name, c, invariants=["QuietImpliesDone"], properties=["Completes"], spec="FairSpec", timeout=1800)
         ctx.export_validate("c07x-" + name, c, "ake", drain=True)
     ctx.random_validate("akestart", 64 if ctx.quick() else 640, 30)
@@ -483,6 +485,7 @@ def c06(ctx):
 def c02(ctx):
     q = ctx.quick()
     ctx.model("c02-bag", dict(DATA33, NetMode="bag", MaxSend=2, MaxFlight=2, MaxDup=2, MaxDrop=1), ["DeliveredAuthentic", "AtMostOnce"])
+    ctx.model("c02-adv", dict(DATA33, MaxSend=2, MaxFlight=2, MaxAtk=2 if q else 3), ["NoForgedPlain", "DeliveredAuthentic", "AtMostOnce", "PrefixOrder"], timeout=2400)
     ctx.export_tamper_validate("c02-data", dict(DATA33, MaxSend=2, MaxFlight=2, MaxTick=1, MaxExtra=1), "fifo-data", per_msg=14 if q else 0,
                                allpos=not q, maxsched=80 if q else 600)
     ctx.export_tamper_validate("c02-data-v2", dict(PolA=1, PolB=1, Setup="ake", MaxSend=2, MaxFlight=2), "fifo-data", per_msg=14 if q else 0,
@@ -502,6 +505,13 @@ def c01(ctx):
         ctx.export_tamper_validate("c01-ake-" + name, c, "ake", per_msg=24 if q else 0, allpos=not q, maxsched=8 if q else 40)
         ctx.export_tamper_validate("c01-aker-" + name, c, "none", per_msg=6 if q else 20, maxsched=6 if q else 30, replace=True)
     ctx.model("c01-bag", dict(PolA=3, PolB=3, Prelude=[dict(a="Query", p="A")], NetMode="bag", MaxFlight=4, MaxDup=2, MaxDrop=1, MaxQuery=1), ["AuthInv", "AgreeInv", "SessStable"])
+    # the active attacker E at design level: tampered copies of anything in flight, and messages E builds
+    # itself (own / degenerate DH values, signature blocks with its own key or claiming the peer's)
+    for name in (("queryA",) if q else ("queryA", "both", "queryB-v2")):
+        pol, prelude = STARTS[name]
+        ctx.model("c01-adv-" + name, dict(pol, Prelude=prelude, MaxFlight=4, MaxAtk=2 if q else 3), ["AuthInv", "AgreeInv"], timeout=2400)
+    qa_pol, qa_prel = STARTS["queryA"]
+    ctx.model_expect_violation("c01-adv-reach", dict(qa_pol, Prelude=qa_prel, MaxFlight=4, MaxAtk=2), ["EveNeverPeer"], kf={})
     rp, rprel = STARTS["refresh"]
     ctx.model("c01-refresh", dict(rp, Prelude=rprel, MaxFlight=4, MaxQuery=1), ["AuthInv", "AgreeInv", "SessStable"])
     # non-vacuity: with the deviation the code has (known finding D20b) the model violates SessStable
@@ -778,6 +788,7 @@ def c13(ctx):
     monitored per call by the driver and evaluated by the trace specification; the parser entry points
     are enumerated in child processes."""
     q = ctx.quick()
+    ctx.level = "fault_enumeration"
     ctx.model("c13-model", dict(DATA33, NetMode="bag", MaxSend=2, MaxFlight=2, MaxDup=1, MaxDrop=1), ["NoSecretsAtRest"])
     for name in (("queryA",) if q else ("queryA", "both", "both-v2", "tag", "req")):
         pol, prelude = STARTS[name]
